@@ -421,6 +421,42 @@ class CFG:
             return None
         return out
 
+    def feasible(self, path: List[Tuple[int, str]]) -> bool:
+        """False when the path answers one test over unchanged local names both ways (`if k != -1` taken, later `if k != -1` not taken).
+
+        Only tests built from local names and constants are remembered (no calls, attributes or subscripts: those may change under
+        any statement); a fact is forgotten when one of its names is stored.  Sound for pruning: a path is dropped only on a plain contradiction."""
+        from . import guards
+        known: Dict[str, Set[str]] = {}
+        for nid, lab in path:
+            n = self.nodes[nid]
+            a = n.ast
+            if a is None:
+                continue
+            if n.kind == "test" and lab in ("true", "false"):
+                if any(isinstance(x, (ast.Call, ast.Attribute, ast.Subscript, ast.NamedExpr, ast.Await, ast.Yield)) for x in ast.walk(a)):
+                    continue
+                names = {x.id for x in ast.walk(a) if isinstance(x, ast.Name)}
+                try:
+                    lits = guards.facts(a, lab == "true")
+                except Exception:
+                    continue
+                for lit in lits:
+                    try:
+                        neg = guards.nnf(ast.parse(lit, mode="eval").body, True)
+                    except Exception:
+                        continue
+                    if neg in known:
+                        return False
+                for lit in lits:
+                    known[lit] = names
+                continue
+            stored = {x.id for x in ast.walk(a) if isinstance(x, ast.Name) and isinstance(x.ctx, (ast.Store, ast.Del))} if n.kind in ("stmt", "for", "with_enter", "handler") else set()
+            if stored:
+                for lit in [k for k, v in known.items() if v & stored]:
+                    del known[lit]
+        return True
+
     # ------------------------------------------------------------------ dataflow
     def solve(self, init: Any, transfer: Callable[[Node, Any, str], Any], join: Callable[[Any, Any], Any],
               bottom: Any = None) -> Dict[int, Any]:
@@ -548,14 +584,25 @@ def desugar_exitstack(fn: ast.FunctionDef) -> ast.FunctionDef:
                 return out
             if isinstance(st, ast.If):
                 regs = [(blk, j, registration(x, S)) for blk in (st.body, st.orelse) for j, x in enumerate(blk) if registration(x, S) is not None]
-                regs = [x for x in regs if x[2][0] == "close"]
+                regs = [x for x in regs if x[2][0] == "close" or (x[2][0] == "enter" and x[2][2] is not None)]
                 if regs:
                     finals = []
                     for blk, j, r2 in regs:
                         counter[0] += 1
                         flag = f"__registered{counter[0]}"
                         out.append(ast.copy_location(ast.Assign(targets=[ast.Name(id=flag, ctx=ast.Store())], value=ast.Constant(value=False)), st))
-                        blk[j] = ast.copy_location(ast.Assign(targets=[ast.Name(id=flag, ctx=ast.Store())], value=ast.Constant(value=True)), blk[j])
+                        setflag = ast.copy_location(ast.Assign(targets=[ast.Name(id=flag, ctx=ast.Store())], value=ast.Constant(value=True)), blk[j])
+                        if r2[0] == "enter":
+                            # x = S.enter_context(CM)  under a condition:  x = CM; flag = True  …  finally: if flag: x.close()
+                            bind = ast.copy_location(ast.Assign(targets=[copy.deepcopy(r2[2])], value=r2[1]), blk[j])
+                            blk[j:j + 1] = [bind, setflag]
+                            obj = copy.deepcopy(r2[2])
+                            for n in ast.walk(obj):
+                                if hasattr(n, "ctx"):
+                                    n.ctx = ast.Load()
+                            finals.append(ast.If(test=ast.Name(id=flag, ctx=ast.Load()), body=[close_stmt(obj)], orelse=[]))
+                            continue
+                        blk[j] = setflag
                         finals.append(ast.If(test=ast.Name(id=flag, ctx=ast.Load()), body=[close_stmt(r2[1])], orelse=[]))
                     out.append(st)
                     out.append(ast.copy_location(ast.Try(body=wrap(rest, S) or [ast.Pass()], handlers=[], orelse=[], finalbody=list(reversed(finals))), st))
